@@ -377,7 +377,8 @@ type faultTransport struct {
 	untrusted string
 	// denyAll: a standing condition rather than a fault at a position — every enriching and
 	// authorizing webhook of the provisioner answers allow=false, whenever it is asked
-	denyAll bool
+	denyAll  bool
+	denyKind string // "" = both kinds, else only this one
 }
 
 func (t *faultTransport) RoundTrip(req *http.Request) (*http.Response, error) {
@@ -397,7 +398,7 @@ func (t *faultTransport) RoundTrip(req *http.Request) (*http.Response, error) {
 		kind = "notify"
 	}
 	req = req.Clone(req.Context())
-	if f.Kind == "" && t.denyAll && (kind == "enrich" || kind == "authorize") {
+	if f.Kind == "" && t.denyAll && (kind == "enrich" || kind == "authorize") && (t.denyKind == "" || t.denyKind == kind) {
 		f = Fault{Kind: "deny", Sub: "deny"}
 	}
 	switch f.Kind {
